@@ -449,7 +449,7 @@ def graph_words(init, edges, silent, maxlen):
     return sorted(words)
 
 
-def validate_packed(module, cfg, cases_events, tag, max_rounds=12, timeout=900):
+def validate_packed(module, cfg, cases_events, tag, max_rounds=12, timeout=900, header=None):
     """cases_events: list of (name, [event dicts]) where the first event is the reset line. Packs
     them into one log, validates; on rejection attributes the failure to the case containing the
     high-water line, drops it and repeats. Returns (accepted case count, [(name, rejected event, detail)])."""
@@ -460,6 +460,9 @@ def validate_packed(module, cfg, cases_events, tag, max_rounds=12, timeout=900):
     while remaining and rounds < max_rounds:
         rounds += 1
         rows, owner = [], []
+        if header is not None:        # a first line shared by all cases of the log (e.g. the constants of the trace specification)
+            rows.append(header)
+            owner.append(remaining[0][0])
         for name, evs in remaining:
             for e in evs:
                 rows.append(e)
